@@ -251,8 +251,12 @@ def run_child_maybe_asan(machine, lib, payload, opts, flavour, timeout=120.0):
         with open(tmp, "w") as f:
             json.dump({"payload": payload, "opts": opts, "machine": machine.PROP, "lib": lib}, f, default=core._json_default)
         env = asan_env()
-        p = subprocess.run([sys.executable, "-m", "simfw.cli", "--internal-single", tmp], env=env, cwd=core.VERIF,
-                           stdout=subprocess.PIPE, stderr=subprocess.PIPE, timeout=timeout * 2)
+        try:
+            p = subprocess.run([sys.executable, "-m", "simfw.cli", "--internal-single", tmp], env=env, cwd=core.VERIF,
+                               stdout=subprocess.PIPE, stderr=subprocess.PIPE, timeout=timeout * 2)
+        except subprocess.TimeoutExpired:
+            os.unlink(tmp)
+            return WorkerDeath(-1, "timeout")
         os.unlink(tmp)
         if p.returncode == 0 and p.stdout.strip():
             return json.loads(p.stdout.decode().strip().splitlines()[-1])
@@ -378,9 +382,13 @@ class Check:
         return {"pairs": 2 * n, "differences": diff}
 
 
-def run_check(prop, tier, seed, repo, runs=None, skip_selftest=False, mutants=False):
+def run_check(prop, tier, seed, repo, runs=None, skip_selftest=False, mutants=False, no_shrink=False):
     ck = Check(prop, tier, seed, repo, runs)
     machine, opts = ck.machine, ck.opts
+    if no_shrink:
+        opts["no_shrink"] = True
+        opts["shrink_per_class"] = 1
+        opts["max_deaths"] = 6
     known = load_known(prop)
     try:
         b = buildmod.build(repo, "plain")
@@ -504,6 +512,8 @@ def run_check(prop, tier, seed, repo, runs=None, skip_selftest=False, mutants=Fa
         v = {"oracle": orc, "class": cls, "at": None, "detail": locate(case, per, res.how)}
         if match_known(machine, known, case, v) is not None:
             return ("report", d.index, case, v, "plain", per)
+        if opts.get("no_shrink"):
+            return ("report", d.index, case, v, "plain", per)
         case2, how, n = shrink_death(machine, lib, case, res.how, opts, per)
         orc, cls = death_class(how)
         v = {"oracle": orc, "class": cls, "at": None, "detail": locate(case2, per, how)}
@@ -571,6 +581,8 @@ def run_check(prop, tier, seed, repo, runs=None, skip_selftest=False, mutants=Fa
         if res.get("kind") != "violation":
             return ("anomaly", r["i"], "violated %s/%s in the batch but not alone" % (r["violation"]["oracle"], r["violation"]["class"]))
         v0 = res["violation"]
+        if opts.get("no_shrink"):
+            return ("report", r["i"], r["case"], v0, "plain", per)
         case, v, n = shrink_violation(machine, lib, r["case"], v0, opts, per)
         return ("report", r["i"], case, v, "plain", per)
     if chosen:
@@ -654,7 +666,7 @@ def run_check(prop, tier, seed, repo, runs=None, skip_selftest=False, mutants=Fa
         print("KNOWN-FINDING: property=%s %s" % (prop, e["what"]))
     evidence["violations"] = nviol
 
-    if unexplained:
+    if unexplained and nviol == 0:
         # results that do not repeat and that no memory error explains: the harness, not the property, is in doubt
         for i, what in unexplained[:10]:
             log("HARNESS-ERROR: run %s %s, and no earlier run on its worker fails under the sanitizer" % (i, what))
@@ -663,13 +675,20 @@ def run_check(prop, tier, seed, repo, runs=None, skip_selftest=False, mutants=Fa
         evidence["violations"] = nviol
         write_evidence(evidence, ck)
         return 2
+    for i, what in unexplained[:10]:
+        # the property is violated in any case (VIOLATION lines above); these are most likely more of its consequences
+        ck.notes.append("run %s %s; not traced to a memory error" % (i, what))
+    if opts.get("_aborted_after_deaths"):
+        ck.notes.append("the batch was stopped after %d worker deaths" % opts["_aborted_after_deaths"])
 
     # 8. mutants (sensitivity self-test)
     if mutants or opts.get("mutants"):
         from . import mutants as mut
-        ms = mut.run_catalogue(prop, repo, seed)
-        cov["mutants"] = ms
-        log("[%s] mutants: %d run, %d caught" % (prop, ms["run"], ms["caught"]))
+        ms = mut.run_catalogue(prop, repo, seed, log=log)
+        cov["mutants"] = {k: v for k, v in ms.items() if k != "details"}
+        cov["mutants"]["each"] = [{k: r.get(k) for k in ("id", "source", "status", "wall_s", "note")} for r in ms["details"]]
+        cov["sensitivity_ok"] = not ms["survived"] and not ms["errors"]
+        log("[%s] mutants: %d run, %d caught, survived %s, stale %s" % (prop, ms["run"], ms["caught"], ms["survived"], ms["stale"]))
 
     stats.fill(cov, main_wall)
     cov["known_findings_matched"] = sorted(matched)
@@ -693,7 +712,7 @@ def regenerate(machine, seed, prop, index, opts):
 
 
 def run_regressions(prop, machine, lib, opts, flavour="plain"):
-    d = os.path.join(core.REPLAYS, "regression")
+    d = core.REGRESSION
     out = {"run": 0, "reproduced": []}
     if not os.path.isdir(d):
         return out
@@ -873,6 +892,7 @@ def main(argv=None):
     ap.add_argument("--flavour", default="plain", choices=["plain", "asan"])
     ap.add_argument("--repo", default=os.environ.get("AWSIM_REPO", "/repo"))
     ap.add_argument("--mutants", action="store_true")
+    ap.add_argument("--no-shrink", action="store_true", help="report violations as found (used for the mutant runs, where only the verdict matters)")
     ap.add_argument("--no-selftest", action="store_true")
     a = ap.parse_args(argv)
     if a.property not in MACHINES:
@@ -885,7 +905,7 @@ def main(argv=None):
     try:
         if a.replay:
             return do_replay(a.property, a.replay, a.flavour, a.repo)
-        return run_check(a.property, a.tier, seed, a.repo, runs=a.runs, skip_selftest=a.no_selftest, mutants=a.mutants)
+        return run_check(a.property, a.tier, seed, a.repo, runs=a.runs, skip_selftest=a.no_selftest, mutants=a.mutants, no_shrink=a.no_shrink)
     except Exception:
         log("HARNESS-ERROR\n" + traceback.format_exc())
         return 2
